@@ -14,6 +14,8 @@ type addrRange struct{ lo, hi uintptr }
 var quiet []addrRange
 
 // Quiet registers [p, p+size) as statistics-only memory: atomics on it are not scheduling points.
+//
+//go:norace
 func Quiet(p unsafe.Pointer, size uintptr) {
 	lo := uintptr(p)
 	for _, q := range quiet {
@@ -25,6 +27,8 @@ func Quiet(p unsafe.Pointer, size uintptr) {
 }
 
 // AtomicPoint is the scheduling point in front of an atomic operation on address p.
+//
+//go:norace
 func AtomicPoint(p unsafe.Pointer, label string) {
 	r := rt
 	if r == nil || r.aborting {
@@ -43,18 +47,25 @@ func AtomicPoint(p unsafe.Pointer, label string) {
 // Value is the drop-in for atomic.Value.
 type Value struct{ v atomic.Value }
 
+//go:norace
 func (v *Value) Load() any {
 	AtomicPoint(unsafe.Pointer(v), "Value.Load")
 	return v.v.Load()
 }
+
+//go:norace
 func (v *Value) Store(x any) {
 	AtomicPoint(unsafe.Pointer(v), "Value.Store")
 	v.v.Store(x)
 }
+
+//go:norace
 func (v *Value) Swap(x any) any {
 	AtomicPoint(unsafe.Pointer(v), "Value.Swap")
 	return v.v.Swap(x)
 }
+
+//go:norace
 func (v *Value) CompareAndSwap(old, new any) bool {
 	AtomicPoint(unsafe.Pointer(v), "Value.CAS")
 	return v.v.CompareAndSwap(old, new)
